@@ -803,6 +803,30 @@ Section Generic.
             end
         end
     end.
+
+  (* ---- the token map of one ClientPeerIDAuth across hostnames (tokenMap, auth/client.go) ----
+     hostname := req.Host.  The entry is read under that name, the handshake object is
+     bound to that name, and a successful handshake writes the entry under that name;
+     req.URL.Host only says where the transport connects and is not looked at.
+     Hostnames are atom numbers; the empty req.Host of a hand-built request is the atom
+     the harness gave to the empty string. *)
+  Definition tmap := list (N * (ohdr * N)).
+
+  Fixpoint tm_get (h : N) (m : tmap) : cache :=
+    match m with
+    | [] => None
+    | (h', e) :: r => if N.eqb h h' then Some e else tm_get h r
+    end.
+
+  Definition tm_set (h : N) (ca : cache) (m : tmap) : tmap :=
+    match ca with Some e => (h, e) :: m | None => m end.
+
+  Definition auth_call_h (key : N) (m : tmap) (rhost uhost : N) (resps : list resp) (fresh : list N)
+    : option (option N * list ohdr * tmap) :=
+    match auth_call key rhost (tm_get rhost m) resps fresh with
+    | None => None
+    | Some (pid, qs, ca') => Some (pid, qs, tm_set rhost ca' m)
+    end.
 End Generic.
 
 (* ---- the instance: ideal signatures and MAC of the term algebra ------------------ *)
@@ -813,3 +837,4 @@ Definition client_run_i := client_run sym_verify.
 Definition auth_do_i := auth_do sym_verify.
 Definition auth_call_i := auth_call sym_verify.
 Definition auth_session_i := auth_session sym_verify.
+Definition auth_call_h_i := auth_call_h sym_verify.
